@@ -7,7 +7,7 @@ import props as P
 
 checks = []
 for pid in sorted(P.PROPS):
-    d = M.CHECKS[pid]
+    d = P.PROPS[pid]["manifest"]
     checks.append({
         "property_id": pid,
         "quick_cmd": f"./check {pid} quick",
